@@ -2,14 +2,14 @@
 from hypothesis import strategies as st
 
 from vlib.core import CheckFailure, load_corpus, fmt_exc
-from vlib.wsgi import make_environ, call_app
+from vlib.wsgi import make_environ, call_app, FragStream
 
 ID = 'C18'
 LEVEL = 'exploration'
 RULE = ('case = list of 0-8 (non-empty key, value) text pairs (alphabet rich in "=&+%; #" space, NUL, non-ASCII, repeated keys by '
         'drawing keys from a small per-case pool) + an encoding spelling per character (harness encoder: raw if unreserved, "+" or %20 '
         'for space, %XX upper/lower hex, optionally over-encoding unreserved characters) used as QUERY_STRING and as an '
-        'application/x-www-form-urlencoded POST body (Content-Length or chunked; Content-Type with and without a charset parameter; every request is served twice on one application and the handler mutates what it got in between; before the first access to the form the handler may have read all / part of request.body, moved it to its end, or probed request.json). Plus two threads decoding a 4-pair and a 300 / 1100-field query string or form at the same time under every single-preemption schedule of the small one (deterministic scheduler. Oracle: Request.query / Request.forms == expected map '
+        'application/x-www-form-urlencoded POST body (Content-Length or chunked, delivered in full or in short reads of 1-40 bytes; Content-Type with and without a charset parameter; every request is served twice on one application and the handler mutates what it got in between; before the first access to the form the handler may have read all / part of request.body, moved it to its end, or probed request.json). Plus two threads decoding a 4-pair and a 300 / 1100-field query string or form at the same time under every single-preemption schedule of the small one (deterministic scheduler. Oracle: Request.query / Request.forms == expected map '
         '(single -> str, repeated -> list in submission order), Request.params == {**query, **forms}, parse_qsl() list mode == the pair list. '
         'Totality: parse_qsl(any text) and Request.query on any QUERY_STRING return without raising. Non-trivial = a repeated key, or a key/value '
         'containing one of "=&+%;" / space / non-ASCII / empty value; distinct by case hash.')
@@ -77,6 +77,7 @@ def case_st(draw):
     return {'query': [list(p) for p in q], 'form': [list(p) for p in f], 'style': style,
             'chunked': draw(st.booleans()), 'method': draw(st.sampled_from(['POST', 'PUT'])),
             'ctype': draw(st.sampled_from(CTYPES)),
+            'pattern': draw(st.one_of(st.just([]), st.lists(st.integers(1, 9), min_size=1, max_size=4), st.lists(st.integers(1, 40), min_size=1, max_size=4))),
             'pre': draw(st.sampled_from([None, None, None, 'read_all', 'seek_end', 'json', ['read', 1], ['read', 7], ['read', 10000]]))}
 
 
@@ -139,9 +140,10 @@ def check_case(ctx, case):
         if case['chunked']:
             from vlib.encoders import encode_chunked
             wire, _ = encode_chunked(body, [7, 3, 50])
-            env = make_environ(case['method'], '/q', qs=qs, body=wire, content_length=None, headers=dict(headers, **{'Transfer-Encoding': 'chunked'}))
+            env = make_environ(case['method'], '/q', qs=qs, stream=FragStream(wire, case.get('pattern') or []), content_length=None, headers=dict(headers, **{'Transfer-Encoding': 'chunked'}))
         else:
-            env = make_environ(case['method'], '/q', qs=qs, body=body, headers=headers)
+            # the form arrives as a socket delivers it: read(n) may return fewer bytes than asked for
+            env = make_environ(case['method'], '/q', qs=qs, stream=FragStream(body, case.get('pattern') or []), content_length=len(body), headers=headers)
         seen.clear()
         r = call_app(app, env)
         if r.escaped is not None or r.code != 200:
@@ -154,6 +156,8 @@ def check_case(ctx, case):
         ctx.count('content_type_with_charset')
     if case.get('pre'):
         ctx.count('body_stream_moved_before_first_form_access')
+    if case.get('pattern'):
+        ctx.count('form_body_delivered_in_short_reads')
     allp = q + f
     keys = [k for k, _ in q], [k for k, _ in f]
     rep = any(len(set(ks)) < len(ks) for ks in keys)
@@ -273,6 +277,10 @@ def run(ctx):
             for nkeys in (300, 1100):
                 ctx.guarded(check_threaded, {'threaded': True, 'via': via, 'n': nkeys})
         # the body stream moved in every way before the first access to the form
+        for pattern in ([1], [7], [16], [37], [3, 1]):
+            for chunked in (False, True):
+                ctx.guarded(check_case, {'query': [['q', '1']], 'form': [['name', 'J%'], ['k', 'é&='], ['name', '2'], ['last', 'x' * 30]], 'style': [0, 1, 2], 'chunked': chunked,
+                                         'method': 'POST', 'ctype': 'application/x-www-form-urlencoded', 'pattern': pattern})
         for pre in (None, 'read_all', 'seek_end', 'json', ['read', 1], ['read', 7], ['read', 10000]):
             for chunked in (False, True):
                 ctx.guarded(check_case, {'query': [['q', '1']], 'form': [['first', 'one two'], ['k', 'é&='], ['first', '2']], 'style': [0, 1, 2], 'chunked': chunked,
